@@ -86,7 +86,7 @@ REGISTRY = {
                 "(piece inside its stretch, stretch starts valid) is proved, the coverage corollary is proved "
                 "for the delivered-token rule only (DESIGN 5, C04)"]},
     "C05": {"parts": [{"module": "props.split", "units": ["split", "make_region", "blocks_lemma", "region_split"]},
-                      {"module": "props.regions", "units": ["post_init", "concat_lemma"]},
+                      {"module": "props.regions", "units": ["post_init", "concat_lemma", "meta"]},
                       {"module": "props.readers", "units": ["fixed", "audioreader"]}],
             "witness": "api", "assumptions": SPLIT_ASSUME + [
                 "the last sentence of C05 (regions are the tokenizer segmentation of the per-window decisions) is the "
@@ -150,7 +150,8 @@ REGISTRY = {
                 "exact polynomial rewriting (pyvc/nl.py) and instantiated multiplication-monotonicity lemmas"]},
     "C12": {"parts": [{"module": "props.workers", "units": ["worker_run", "worker_misc", "notify", "tokenizer_run", "tokenizer_init_read",
                                                               "stream_saver", "print_worker", "structure"]},
-                      {"module": "props.split", "units": ["split"]}],
+                      {"module": "props.split", "units": ["split"]},
+                      {"module": "props.regions", "units": ["post_init", "meta"]}],
             "witness": "workers", "assumptions": WK_ASSUME},
     "C13": {"parts": [{"module": "props.workers", "units": ["worker_run", "worker_misc", "stream_saver", "joiner", "region_saver", "saver_init",
                                                               "split_and_join", "tokenizer_init_read", "structure"]},
